@@ -16,7 +16,7 @@ ASSUMPTIONS = ["the server double implements our reading of the server's routing
                "python-axolotl's block-aligned padding defect is shimmed (third party)",
                "restarts happen only when nothing is in flight; eventual delivery is judged at quiescence with every party connected"]
 REQUIRED = ["runs", "wiring:full", "wiring:framed", "messages_sent", "deliveries_checked", "receipts_checked", "frames_scanned", "kind:text", "kind:image",
-            "target:group", "target:direct", "fault:dup", "fault:corrupt", "restarts", "sessions_bootstrapped", "retries_seen", "lead_fields_checked", "kind:reply"]
+            "target:group", "target:direct", "fault:dup", "fault:corrupt", "restarts", "sessions_bootstrapped", "retries_seen", "lead_fields_checked", "kind:reply", "threaded_runs", "threaded_yields"]
 TIMEOUT = {"quick": 600, "thorough": 7200}
 
 KINDS = ["text", "text", "extended", "image", "location", "contact", "link", "reply"]
@@ -290,6 +290,8 @@ def one_run(acc, seed, tag):
         cr = gen.rng(seed, ID, tag + "/chunks")
         W.chunker = lambda b: gen.cut(b, gen.random_cuts(cr, len(b), cr.choice([0, 1, 2, 5])))
     W.server.low_keys = 12
+    threaded = wiring == "framed" and r.random() < 0.25
+    W.threaded_sends = threaded
     groups = {}
     for gi in range(r.choice([0, 1, 1, 2])):
         members = r.sample(phones, r.randint(2, nacc))
@@ -325,9 +327,26 @@ def one_run(acc, seed, tag):
     W.script = script
     w = {"tag": tag, "strategy": strategy, "wiring": wiring, "accounts": nacc, "latecomer": latecomer, "groups": {g: len(v) for g, v in groups.items()},
          "script": [(a["op"], a.get("who"), a.get("kind"), a["msg"].target if "msg" in a else None, a["msg"].fault if "msg" in a else None) for a in script]}
+    w["threaded_sends"] = threaded
+    yi = None
+    if threaded:
+        import random as _random
+        from vf import inject
+        acc.count("threaded_runs")
+        yi = inject.YieldInjector(_random.Random(r.randrange(1 << 30)), ("yowsup/axolotl/store/sqlite/litesessionstore.py", "yowsup/axolotl/store/sqlite/liteaxolotlstore.py",
+                                  "yowsup/axolotl/store/sqlite/liteidentitykeystore.py", "yowsup/axolotl/store/sqlite/liteprekeystore.py", "yowsup/axolotl/store/sqlite/litesenderkeystore.py",
+                                  "yowsup/axolotl/manager.py", "yowsup/layers/axolotl/layer_send.py", "yowsup/layers/axolotl/layer_receive.py", "yowsup/layers/axolotl/layer_base.py"),
+                                  p=r.choice([0.05, 0.2, 0.4]))
+        yi.__enter__()
     try:
         quiet = W.run(max_steps=30000)
+        if yi:
+            yi.__exit__(None, None, None)
+            acc.count("threaded_yields", yi.yields)
+            yi = None
     except Exception as e:  # noqa: harness-level failure
+        if yi:
+            yi.__exit__(None, None, None)
         import traceback
         acc.inconc("%s: world crashed: %s" % (tag, traceback.format_exc()[-600:]))
         W.close()
